@@ -41,6 +41,7 @@
      * leading / trailing blanks of a property value;  interior runs of blanks are not generated;
      * image unit numbers may be None (documented: formats without pages), image size when the
        image type has no size field (PdfImage, RtfImage);
+     * the VALUE of an image's pixel width / height (C14): only "None or a number" is demanded (SizeOK);
      * WHAT the text is (C02); only its type and well-formedness are demanded here;
      * \uN sequences that are not well paired in the file: the result must be well-formed
        Unicode, which replacement character is used is not demanded.
@@ -98,6 +99,9 @@ WellPaired(u) ==
 NumberOK(cls, n) == cls = "int" /\ n >= 1
 \* the unit number of an image may be None
 OptNumberOK(cls, n) == cls = "none" \/ NumberOK(cls, n)
+
+\* pixel width / height in an image's metadata: None or a number
+SizeOK(cls) == cls \in {"none", "int", "float"}
 
 (* ------------------------------------------------------------------ streams *)
 \* get_bytes(): binary stream, positioned at 0, readable to the end; its length equals the size
